@@ -115,7 +115,7 @@ def check(model, rep):
     _arm_view.methods = dict(arm.methods)
     for _nm in list(_arm_view.methods):
         if 'ynamics' in _nm or _nm in ('massMatrix', 'coriolisGravity', 'jacobianLink'):
-            _f = positional_self_calls(arm, arm.methods[_nm])
+            _f = positional_self_calls(arm, _sum_to_loop(arm.methods[_nm]))
             _arm_view.methods[_nm] = _f
     for _nm in list(_arm_view.methods):
         if ('ynamics' in _nm or _nm in ('massMatrix', 'coriolisGravity')) and any(
@@ -168,7 +168,10 @@ def check(model, rep):
         qdd = il.text(elts[0]) if elts else '?'
         ok_ee = len(elts) == 4 and il.same(elts[3], ee_want)
         rep.ob('R08.3', fde, 'ee = inverseDynamics(q, 0, 0, g=0, F)[0]', ok_ee, 'the tip-force term is %s' % (il.text(elts[3]) if len(elts) == 4 else '?'))
-        want = ['%s(%s)@(%s-%s.flatten()-%s.flatten())' % (inv, M_t, p[3], h_t, e_) for inv in ('ling.pinv', 'ling.inv') for e_ in ee_want]
+        # the gravity argument of h: the parameter (re-bound to the stored default when None), or that default resolution written as an expression
+        g_forms = [p[4]] + [t_ % {'g': p[4]} for t_ in ('(self.grav if %(g)s is None else %(g)s)', '(%(g)s if %(g)s is not None else self.grav)')]
+        h_forms = ['self.coriolisGravity(%s,%s,%s)' % (p[1], p[2], g_) for g_ in g_forms]
+        want = ['%s(%s)@(%s-%s.flatten()-%s.flatten())' % (inv, M_t, p[3], h_, e_) for inv in ('ling.pinv', 'ling.inv') for e_ in ee_want for h_ in h_forms]
         ok = bool(elts) and il.same(elts[0], want, subst=SUB)
         rep.ob('R08.3', fde, 'qdd = pinv(M(q)) @ (tau - h - ee)', ok, 'forwardDynamicsE does not solve M qdd = tau - h - ee: %s' % qdd[:220])
     # kernel call sites from the arm
@@ -236,6 +239,45 @@ def check(model, rep):
     dyn0 = [fi for name, fi in sorted(arm0.methods.items()) if 'ynamics' in name or name in ('massMatrix', 'coriolisGravity', 'jacobianLink')]
     memocoh.check(rep, 'R08.7', arm0, dyn0, 'torques / mass matrix / accelerations of an arm whose link frames, screws or inertias were changed')
     rep.floor('R08.7', 'dynamics methods scanned', len(dyn0), 3)
+
+
+def _sum_to_loop(fi):
+    """`return sum((f(i) for i in range(n)), start)` / `x = sum([...], start)` is the accumulation loop `acc = start; for i in range(n): acc = acc + f(i)`
+    (the built-in adds left to right from the start value): read in that form, in a copy of the method."""
+    import copy
+
+    def rewrite(stmts):
+        out = []
+        for st in stmts:
+            for fld in ('body', 'orelse', 'finalbody'):
+                if isinstance(getattr(st, fld, None), list) and not isinstance(st, (ast.FunctionDef, ast.ClassDef)):
+                    setattr(st, fld, rewrite(getattr(st, fld)))
+            v = st.value if isinstance(st, (ast.Return, ast.Assign)) else None
+            if isinstance(v, ast.Call) and isinstance(v.func, ast.Name) and v.func.id == 'sum' and not v.keywords and 1 <= len(v.args) <= 2 \
+                    and isinstance(v.args[0], (ast.GeneratorExp, ast.ListComp)) and len(v.args[0].generators) == 1 \
+                    and not v.args[0].generators[0].ifs and not v.args[0].generators[0].is_async \
+                    and isinstance(v.args[0].generators[0].iter, ast.Call) and isinstance(v.args[0].generators[0].iter.func, ast.Name) \
+                    and v.args[0].generators[0].iter.func.id == 'range':
+                g = v.args[0].generators[0]
+                acc = 'acc__sum%d' % st.lineno
+                start = v.args[1] if len(v.args) == 2 else ast.Constant(0)
+                init = ast.Assign(targets=[ast.Name(acc, ast.Store())], value=start)
+                step = ast.Assign(targets=[ast.Name(acc, ast.Store())], value=ast.BinOp(ast.Name(acc, ast.Load()), ast.Add(), v.args[0].elt))
+                loop = ast.For(target=g.target, iter=g.iter, body=[step], orelse=[])
+                last = ast.Return(ast.Name(acc, ast.Load())) if isinstance(st, ast.Return) else ast.Assign(targets=st.targets, value=ast.Name(acc, ast.Load()))
+                for n_ in (init, loop, last):
+                    ast.copy_location(n_, st)
+                    ast.fix_missing_locations(n_)
+                out += [init, loop, last]
+            else:
+                out.append(st)
+        return out
+    if not any(isinstance(c_, ast.Call) and isinstance(c_.func, ast.Name) and c_.func.id == 'sum' for c_ in ast.walk(fi.node)):
+        return fi
+    g_ = copy.copy(fi)
+    g_.node = copy.deepcopy(fi.node)
+    g_.node.body = rewrite(g_.node.body)
+    return g_
 
 
 def _strip(e):
